@@ -521,17 +521,9 @@ func (h *Hub) run() {
 				log.WithFields(log.Fields{"error": err.Error(), "topic": client.topic, "booking_id": client.bookingID}).Warning("deny channel not added on client register")
 			}
 		case client := <-h.unregister:
-			h.mu.Lock()
-			if _, ok := h.clients[client.topic]; ok {
-				delete(h.clients[client.topic], client)
-				close(client.send)
-			}
-			h.mu.Unlock()
-			err := h.dcs.DeleteChild(client.name) // no need to close, not denied
-			if err != nil {
-				log.WithFields(log.Fields{"error": err.Error(), "topic": client.topic, "booking_id": client.bookingID}).Warning("deny channel not deleted on client unregister")
-			}
+			h.drop(client)
 		case message := <-h.broadcast:
+			var slow []*Client
 			h.mu.RLock()
 			topic := message.sender.topic
 			for client := range h.clients[topic] {
@@ -539,14 +531,30 @@ func (h *Hub) run() {
 					select {
 					case client.send <- message:
 					default:
-						h.unregister <- client
-						//close(client.send)
-						//delete(h.clients[topic], client)
+						// cannot send on h.unregister here: this loop is its only receiver
+						slow = append(slow, client)
 					}
 				}
 			}
 			h.mu.RUnlock()
+			for _, client := range slow {
+				h.drop(client)
+			}
 		}
+	}
+}
+
+// drop removes a client from its topic and closes its send channel, exactly once
+func (h *Hub) drop(client *Client) {
+	h.mu.Lock()
+	if _, ok := h.clients[client.topic][client]; ok {
+		delete(h.clients[client.topic], client)
+		close(client.send)
+	}
+	h.mu.Unlock()
+	err := h.dcs.DeleteChild(client.name) // no need to close, not denied
+	if err != nil {
+		log.WithFields(log.Fields{"error": err.Error(), "topic": client.topic, "booking_id": client.bookingID}).Warning("deny channel not deleted on client unregister")
 	}
 }
 
